@@ -272,30 +272,36 @@ Proof.
 Qed.
 
 (* the copy never fails once a mask was returned *)
-Lemma copy_kids_total nv nc ovm ocm : forall ks Nv Nc,
+Definition no_text (ks : list kid) : Prop := Forall (fun k => kkind k <> KText) ks.
+
+Lemma not_text_eqb k : k <> KText -> dkind_eqb k KText = false.
+Proof. destruct k; try reflexivity. congruence. Qed.
+
+Lemma copy_kids_total nv nc ovm ocm : forall ks Nv Nc, no_text ks ->
   kids_len AVertex Nv ks -> kids_len ACell Nc ks ->
   (forall m, ovm = Some m -> length m = Nv /\ nv = count m) ->
   (forall m, ocm = Some m -> length m = Nc /\ nc = count m) ->
   exists ks', copy_kids nv nc ovm ocm ks = Ok ks'.
 Proof.
-  induction ks as [|k r IH]; intros Nv Nc HLv HLc Hv Hc; simpl; [eexists; reflexivity|].
+  induction ks as [|k r IH]; intros Nv Nc HT HLv HLc Hv Hc; simpl; [eexists; reflexivity|].
   assert (HLv' : kids_len AVertex Nv r) by (intros k0 v0 Hin; apply HLv; right; exact Hin).
   assert (HLc' : kids_len ACell Nc r) by (intros k0 v0 Hin; apply HLc; right; exact Hin).
-  destruct (IH Nv Nc HLv' HLc' Hv Hc) as [r' Hr]. rewrite Hr.
+  inversion HT as [|? ? HTk HTr]; subst. pose proof (not_text_eqb _ HTk) as NT.
+  destruct (IH Nv Nc HTr HLv' HLc' Hv Hc) as [r' Hr]. rewrite Hr.
   assert (D : exists k', data_copy match kassoc k with AVertex => nv | ACell => nc | AObject => 1 end
                            match kassoc k with AVertex => ovm | ACell => ocm | AObject => None end k = Ok k').
   { unfold data_copy. destruct (kvals k) as [v|] eqn:Ev; [|destruct (kassoc k); try destruct ovm; try destruct ocm; eexists; reflexivity].
     destruct (kassoc k) eqn:Ea.
     - destruct ovm as [m|]; [|eexists; reflexivity]. destruct (Hv m eq_refl) as [L N].
       assert (Lv : length v = Nv) by (apply (HLv k v); [left; reflexivity|exact Ea|exact Ev]).
-      rewrite L, Lv, Nat.eqb_refl. simpl.
+      rewrite L, Lv, Nat.eqb_refl. simpl. rewrite NT, andb_false_r.
       assert (Hsel : length (if nv <? Nv then select m v else fill_masked (ndv (kkind k)) m v) = nv).
       { destruct (nv <? Nv) eqn:E2; [rewrite select_length; lia|]. apply Nat.ltb_ge in E2.
         pose proof (count_le_length m). rewrite fill_masked_all_true; lia. }
       rewrite format_length_eq by exact Hsel. eexists; reflexivity.
     - destruct ocm as [m|]; [|eexists; reflexivity]. destruct (Hc m eq_refl) as [L N].
       assert (Lv : length v = Nc) by (apply (HLc k v); [left; reflexivity|exact Ea|exact Ev]).
-      rewrite L, Lv, Nat.eqb_refl. simpl.
+      rewrite L, Lv, Nat.eqb_refl. simpl. rewrite NT, andb_false_r.
       assert (Hsel : length (if nc <? Nc then select m v else fill_masked (ndv (kkind k)) m v) = nc).
       { destruct (nc <? Nc) eqn:E2; [rewrite select_length; lia|]. apply Nat.ltb_ge in E2.
         pose proof (count_le_length m). rewrite fill_masked_all_true; lia. }
@@ -304,25 +310,25 @@ Proof.
   destruct D as [k' Dk]. rewrite Dk. eexists; reflexivity.
 Qed.
 
-Lemma copy_from_extent_total o e inv m : wf o -> obj_mask o e inv = Ok (Some m) ->
+Lemma copy_from_extent_total o e inv m : wf o -> no_text (kids o) -> obj_mask o e inv = Ok (Some m) ->
   exists o', copy_from_extent o e inv = CCopy o'.
 Proof.
-  intros W M. pose proof W as (Wc & Wk & Wp). pose proof (obj_mask_length o e inv m W M) as L.
+  intros W HT M. pose proof W as (Wc & Wk & Wp). pose proof (obj_mask_length o e inv m W M) as L.
   unfold copy_from_extent. rewrite M. unfold masked_copy.
   destruct (ok o) eqn:Ek.
   - rewrite L, Nat.eqb_refl. simpl.
     destruct (Wp eq_refl) as [Wp1 Wp2].
     assert (T : exists ks', copy_kids (length (select m (verts o))) 0 (Some m) (Some m) (kids o) = Ok ks').
     { (* no cell children on Points: the cell mask argument is never used *)
-      clear M. pose proof (wf_kids_len_v o W) as HLv. revert HLv Wp2. generalize (kids o).
-      induction l as [|k r IH]; intros HLv Hn; simpl; [eexists; reflexivity|].
-      inversion Hn as [|? ? Hk Hr]; subst.
+      clear M. pose proof (wf_kids_len_v o W) as HLv. revert HLv Wp2 HT. generalize (kids o).
+      induction l as [|k r IH]; intros HLv Hn HT; simpl; [eexists; reflexivity|].
+      inversion Hn as [|? ? Hk Hr]; subst. inversion HT as [|? ? HTk HTr]; subst. pose proof (not_text_eqb _ HTk) as NT.
       assert (HLv' : kids_len AVertex (length (verts o)) r) by (intros k0 v0 Hin; apply HLv; right; exact Hin).
-      destruct (IH HLv' Hr) as [r' Er]. rewrite Er.
+      destruct (IH HLv' Hr HTr) as [r' Er]. rewrite Er.
       unfold not_cell in Hk. destruct (kassoc k) eqn:Ea; [|congruence|].
       - unfold data_copy. destruct (kvals k) as [v|] eqn:Ev; [|eexists; reflexivity].
         assert (Lv : length v = length (verts o)) by (apply (HLv k v); [left; reflexivity|exact Ea|exact Ev]).
-        rewrite L, Lv, Nat.eqb_refl. simpl. rewrite select_length by exact L.
+        rewrite L, Lv, Nat.eqb_refl. simpl. rewrite NT, andb_false_r. rewrite select_length by exact L.
         assert (Hsel : length (if count m <? length (verts o) then select m v else fill_masked (ndv (kkind k)) m v) = count m).
         { destruct (count m <? length (verts o)) eqn:E2; [rewrite select_length; lia|]. apply Nat.ltb_ge in E2.
           pose proof (count_le_length m). rewrite fill_masked_all_true; lia. }
@@ -333,6 +339,7 @@ Proof.
     rewrite cells_kept_wf by (rewrite L; exact Wc). rewrite cell_mask_length, Nat.eqb_refl. simpl.
     destruct (copy_kids_total (length (select m (verts o))) (length (select (cell_mask m (cells o)) (map (map (new_id m)) (cells o))))
                 (Some m) (Some (cell_mask m (cells o))) (kids o) (length (verts o)) (length (cells o))) as [ks' Hk].
+    + exact HT.
     + apply wf_kids_len_v; exact W.
     + apply wf_kids_len_c; exact W.
     + intros m0 E0; injection E0 as <-. split; [exact L|apply select_length; exact L].
@@ -342,6 +349,7 @@ Proof.
     rewrite cells_kept_wf by (rewrite L; exact Wc). rewrite cell_mask_length, Nat.eqb_refl. simpl.
     destruct (copy_kids_total (length (select m (verts o))) (length (select (cell_mask m (cells o)) (map (map (new_id m)) (cells o))))
                 (Some m) (Some (cell_mask m (cells o))) (kids o) (length (verts o)) (length (cells o))) as [ks' Hk].
+    + exact HT.
     + apply wf_kids_len_v; exact W.
     + apply wf_kids_len_c; exact W.
     + intros m0 E0; injection E0 as <-. split; [exact L|apply select_length; exact L].
